@@ -22,6 +22,8 @@
 //                  functions are cross-checked against the specification's expected sets on
 //                  every TLC case (kind "oracle" = tool error).
 //   mfdrive collide <cases.ndjson> <out.ndjson> [--from=i]
+#include <unistd.h>
+
 #include <mutex>
 #include <random>
 
@@ -558,6 +560,9 @@ int CollideMain(int argc, char** argv) {
     Fails F;
     const std::string kind = cases[i]["kind"];
     int nt = 0;
+    // a broken tree can make the traversal loop forever: SIGALRM ends the process, the
+    // orchestrator attributes it to this case (a hang on a valid leaf set) and resumes
+    alarm(kind.rfind("rand", 0) == 0 ? 300 : 30);
     if (kind == "bvh3")
       nt = RunBvh3(cases[i], F);
     else if (kind == "rects")
@@ -572,6 +577,7 @@ int CollideMain(int argc, char** argv) {
       nt = RunRandPts(cases[i], F);
     else
       F.add("oracle", {{"what", "unknown case kind " + kind}});
+    alarm(0);
     if (!F.list.empty()) nfail++;
     nontrivial += nt > 0;
     out.line({{"i", i}, {"fail", F.list}, {"nontrivial", nt}});
